@@ -197,6 +197,11 @@ def calls_C12(g, mb):
     # every optional output on its own and in random combinations (an output must not depend on which
     # other outputs were requested)
     c += ["call COMm %d 1" % k for k in (8, 2, g.r.choice([1, 4]), g.r.randint(1, 15))]
+    # energy balance along the forward-dynamics solution, with and without external forces
+    if g.r.random() < 0.5:
+        c += [mb.fext_line(), "call ENB", "fext none"]
+    else:
+        c += ["call ENB"]
     c += ["poison %d" % g.r.randint(1, 10 ** 6), "call UKC 7", "call COM 0", "call ZMP %s %s 0" % (n, p)]
     return c + props_c12b.calls_fpe(g, mb)
 
@@ -1569,7 +1574,7 @@ PROPS = {
             "explanation": "theorems about the code-shaped model of the four routines (Rbdl/Iter.lean, linear solver a parameter): reported success => residual test passed OR (IK only) step test passed, for every solver and every cap; failure => last iterate, sizes kept; tests monotone in and reading the documented tolerance; unit quaternions after every assembly pass; KKT solution => G qdot = 0 and weighted-least-squares optimal. Correspondence model <-> implementation: one modelled pass (exact rationals, exact linear solve) from the implementation's own iterate at cap k must reproduce flag and iterate at cap k+1 (IK constraint-set overload: flag, error norm and the step seen through J, since the null-space part of its step is rounding noise / lambda), the modelled run from the start must reproduce caps 0 and 2, the modelled CalcAssemblyQDot must reproduce the velocities; comparisons whose termination tests are within floating-point noise of the threshold are skipped. Certificates on every run as before: independently evaluated exact kinematics (cos / sin of the returned doubles by a 2^-100 fixed-point series): reported IK success implies residual = reported error norm, termination honours constraint_tol / step_tol, outputs finite and correctly sized; assembly success implies |phi(Q)| < tolerance and unit quaternions; assembled velocities satisfy G qdot = 0 and the weighted least-squares optimality condition. Convergence itself is not claimed.",
             "level_text": "proof + correspondence for the solver logic (termination tests, updates, sizes, normalisation, KKT characterisation); the linear solves and the transcendental functions are parameters of the model; the IK overloads report success on a short step whatever the residual (witnesses in Props/C17.lean), so 'success => solution' holds for them only in the form proved",
             "assumptions": COMMON_ASSUMPTIONS},
-    "C13": {"gen": gen_C13,
+    "C13": {"gen": gen_C13, "extra_props": ["C13CS"],
             "rule": "for random models and 4 routines each (22 public routines): a pristine model called with state B versus the same model after 1-3 earlier calls with state A and external forces A, then a deterministic poisoning of every free workspace entry, then the call with state B; flag-cleared variants after the documented predecessor; constraint-set routines after earlier calls on the same set; distinct = distinct (model shape, routine, history)",
             "explanation": "direct statement on the implementation (twin comparison pristine vs polluted, relative 1e-9) plus correspondence of every polluted run with the workspace-passing Lean model given the identical poison",
             "assumptions": COMMON_ASSUMPTIONS},
@@ -1589,7 +1594,7 @@ PROPS = {
             "explanation": "theorem: call-granularity non-interference for a world with explicit globals (RbdlProofs/Props/C20.lean); tie: the writable symbols of the freshly compiled library and addons (nm) must equal the declared list tools/globals_expected.json; search: concurrent and interleaved runs vs solo runs, ThreadSanitizer in the thorough tier",
             "level_text": "partial proof: non-interference is a theorem for every schedule of calls and of per-instance micro-steps (RbdlProofs/Props/C20.lean) about a model whose only shared components are the declared globals; the frame conditions are tied to the compiled code by the symbol-table check on every run; instruction-level races, allocator and libc behaviour are outside the model and are only searched for (fresh-process references, threads, TSan)",
             "assumptions": ["the writable-symbol list extracted by nm is complete for static storage (function-local statics included)"]},
-    "C12": {"gen": gen_C12, "extra_props": ["C12Cap"], "harness": "driver_bal",
+    "C12": {"gen": gen_C12, "extra_props": ["C12Cap", "C12Energy"], "harness": "driver_bal",
             "extra_srcs": lambda: [os.path.join(os.environ.get("VERIF_REPO", "/repo"), "addons/balance/BalanceToolkit.cc")],
             "rule": RULE_MODELS + "; random contact plane (unit normal, point off the origin); balance addon: gravity opposing a random rational unit normal, plane below / through the mechanism, at rest / omega-small / eps = 0 variants, flag-cleared call on a poisoned workspace",
             "explanation": "monitor: definitions of mass, CoM, momentum, energies, ZMP on jets of the pose specification; foot-placement estimator: whole-body inertia / angular momentum about the CoM and about its ground projection from the definitions (monitor), foot-placement geometry, projections, Eigen solves, Eqn. 45 residual and the 20 derivative fields (first-order jets) as certificates on the implementation's outputs",
